@@ -7,6 +7,20 @@ import re
 
 ROOT = os.path.dirname(os.path.dirname(os.path.abspath(__file__)))
 NOTES = {
+    'C03_r10m2_in_src_asphalt_core__component_py_the': 'the scenario `lookup_paths_agree_inside_a_component` extended (resources added after the tree was created, a factory-backed pair, optional and plain lookups) and also run for C03',
+    'C05_r10m1__init_component_src_asphalt_core__component_py_no': 'fixed scenario `same_configuration_object_started_twice` (this is the revert of fix F6 seen from C05)',
+    'C05_r10m2_resolve_the_target_context_once_refactoring_of': 'the scenario `nested_tree_publications_release_waiters` also run for C05',
+    'C06_r10m1_signal___get___src_asphalt_core__event_py': "not reached by the C06 check (it needs two value-equal `Context` subclass instances open at once); the mechanism - value-equal owners sharing one bound signal - is C11's and is reported there",
+    'C06_r10m2_context_add_resource_factory_src_asphalt_core__context_py': 'fixed scenario `factory_for_an_iterable_class_releases_its_waiter` (an Enum class as the single type)',
+    'C07_r10m1_context__run_teardown_callbacks_src_asphalt_core__context_py': "not reached by the C07 check (a `start_component()` made from inside a teardown callback); the changed teardown loop is C01's and is reported there (`not-invoked`)",
+    'C07_r10m2_context__run_teardown_callbacks_src_asphalt_core__context_py': "not reached by the C07 check (a teardown callback cancelled by the caller's own deadline); the changed teardown loop is C01's and is reported there (`not-invoked`)",
+    'C08_r10m1_componentcontext_start_service_task__component_py_the_overri': "fixed scenario `component_service_task_keeps_its_teardown_action` (None and a falsy callable through a component's view)",
+    'C12_r10m1_context_add_teardown_callback_now_snapshots_the_caller_s': 'fixed scenario `callback_registered_from_elsewhere_runs_in_its_own_context`',
+    'C12_r10m2_run_background_task_src_asphalt_core__concurrent_py_the': 'fixed scenario `task_started_on_an_outer_context_belongs_to_it`',
+    'C13_r10m2_two_cooperating_sites_context_gets_a_private': 'fixed scenario `cancelled_exit_with_a_task_still_inside_is_reported`',
+    'C15_r10m1__context_context_start_service_task_the_per_task_finalizer': "not reached by the C15 check (its programs start service tasks with the default action); the finalizer is C08's and is reported there (`teardown-did-not-wait`)",
+    'C15_r10m2__concurrent_run_background_task_the_wrapper_every_service_ta': "not reached by the C15 check; `run_background_task` is C08's and C09's and is reported there (`teardown-did-not-wait`, `wait-finished`)",
+    'C19_r10m1_inject_s_async_call_time_resolution_resolve_resources_async': 'fixed scenario `injected_coroutine_in_a_component_waits_like_the_explicit_lookup`',
     'C03_r9m1_tidy_up_in_context_add_resource_src_asphalt': 'fixed scenario `failed_adds_of_unusual_shapes_change_nothing` (a class that cannot be hashed after an ordinary type)',
     'C03_r9m2_hardening_of_the_debug_log_call_in': "the same scenario: a partial / callable object as factory callback with explicit types through a component's view",
     'C04_r9m2_get_resource_nowait_is_made_to_honour_its_docstring': 'oracle: `AsyncResourceError` for a pair that already resolves (before: correspondence only)',
